@@ -36,6 +36,10 @@ T('C03', 'exhaustive enumeration of every insertion order of every subset (<=3, 
   'Bounded exhaustive model checking of contribution composition on the real TransmissionModel: all 259 (thorough 1099) ordered contribution selections x 3 call histories, plus species-set / abundance / layer / magnitude deviations; on every case T_model = prod_c T_c and T_c = prod_comp T_comp (licensed only where the combined reference tau exceeds 10 at all wavenumbers), the canonically ordered model agrees, the contribution list object is restored after every per-contribution call and a repeated model() is bit-identical, every molecular / CIA / Rayleigh component equals cross-section x mixing ratio (x partner ratio) from the reference interpolator, each source alone equals the reference slant integral (density squared for CIA), zero-abundance species are neutral, and store_contributions returns the binned per-source results.',
   'cross-section mode only (product over molecules is not an identity for correlated-k); numba/numpy trusted; small-scope hypothesis')
 
+T('C13', 'exhaustive enumeration of every contiguous sub-range request (as grid and as observation) x native-grid configurations (one/two molecules, nested/non-nested coarser grid) x cutoff flag x model family x magnitude, differential restricted-vs-full oracle on fresh real models; every sub-range of own and foreign points at the Opacity/KTable level',
+  'Bounded exhaustive model checking by differential execution: for each of the 45 contiguous sub-ranges of the 10-point coarsening of the finest native grid, every grid configuration, both cutoff settings, transmission and emission, three magnitudes, a fresh model is run restricted and a fresh model full; values at common wavenumbers must agree (only the exp(-10) licence where the full run is saturated on the restricted range), and the two results binned to the observation must agree; at the opacity level every contiguous request of own points must be returned unchanged and every foreign request must lie between the two neighbouring native values of the full grid, for cross-section and k-table layouts.',
+  'observation widths are the mid-point implied widths (stated condition holds by construction); emission letters stay below the clamp; numba/numpy trusted; small-scope hypothesis')
+
 
 def main():
     props = [json.loads(l) for l in open(os.path.join(VERIF, 'properties.jsonl'))]
